@@ -96,7 +96,7 @@ def run(c):
         e, s = events[i], scen[owner[i]]
         key = "%s:%s:%s:%s" % (e.get("op"), e.get("res"), "secure" if e.get("secure") else "ordinary", e.get("got") if e.get("got") in ("garbage", "-") else "othervalue")
         seen[key] = seen.get(key, 0) + 1
-        if seen[key] <= 2:
+        if c.want_reproduction(key, seen[key]):
             c.reproduce_trace("varstore", s["sc"], "EfiVarFsTrace", "EfiVarFsTrace.cfg", ("sc", "i", "panic", "gotlen", "ev"))
         c.report(key, "event %s %s -> %s/%s is not a step of the register specification" % (e.get("op"), e.get("v"), e.get("res"), e.get("got")),
                  dict({"scenario": s, "event": e}, **c.rp("varstore", s, validate=("EfiVarFsTrace", "EfiVarFsTrace.cfg"), strip=("sc", "i", "panic", "gotlen", "ev"))))
